@@ -183,6 +183,26 @@ namespace
         (void)junk[sizeof(junk) / sizeof(junk[0]) - 1];
     }
 
+    // The same for frames of the size class a PATH_MAX buffer falls into.  In the sanitizer build frames live on ASan's fake
+    // stack (detect_stack_use_after_return), one free list per size class: what the callee's frame holds when it is handed
+    // out is what the last frame of that class left there - without this, whatever an earlier run of the worker left
+    // (a violation that depends on it does not reproduce in a fresh process).
+    template <size_t BYTES> __attribute__((noinline)) void dirty_frame(uint64_t seed)
+    {
+        volatile uint64_t junk[BYTES / 8];
+        uint64_t w = seed | 0x0101010101010101ULL;
+        for (size_t i = 0; i < sizeof(junk) / sizeof(junk[0]); ++i)
+        {
+            w = (w * 6364136223846793005ULL + 1442695040888963407ULL) | 0x0101010101010101ULL;
+            junk[i] = w;
+        }
+        (void)junk[sizeof(junk) / sizeof(junk[0]) - 1];
+    }
+    inline void dirty_frames(uint64_t seed)
+    {
+        dirty_frame<1100>(seed); dirty_frame<2200>(seed + 1); dirty_frame<4400>(seed + 2); dirty_frame<4600>(seed + 3); dirty_frame<9000>(seed + 4);
+    }
+
     const char* len_class(size_t len)
     {
         if (len < 256) return "len<256";
@@ -265,6 +285,7 @@ namespace
                 continue;
             }
             dirty_stack(mix(plan.seed, run.step, 7));
+            dirty_frames(mix(plan.seed, run.step, 8));
             errno = k_stale_errnos[st.d % k_stale_count];
             if (errno == EINTR) SIM_PROBE("stale_EINTR_in_errno_before_the_call");
             if (errno == ENAMETOOLONG || errno == EACCES || errno == EIO) SIM_PROBE("stale_errno_is_one_readlink_could_have_left");
